@@ -667,6 +667,9 @@ class _Run:
         rtext = [row_text(r) for r in R]
         T = len(R)
         self.renders += 1
+        if self.scen["config"]["walker"] != "custom" and fi is None and len(lb.body):
+            self.violate("C07.3", "list-has-items-but-the-walker-reports-no-focus", f"step {i} size {size}: {len(lb.body)} items, get_focus() {lb.body.get_focus()!r}; shown {gtext!r}")
+            return None
         if self.scen["config"]["walker"] != "custom" and fi is not None and len(lb.body) <= 64:
             # the two bundled walkers ARE lists: the concatenation the property speaks of is the list order, whatever
             # their get_next / get_prev / get_focus say (the model above reads the list through those)
@@ -753,6 +756,20 @@ class _Run:
                 return None
             ks3 = ksd
             res.probe("cursor_checked")
+        if focus:
+            # what the ListBox tells its parent about the cursor (Frame, Pile, MainLoop place the terminal cursor by it)
+            # is what it has just drawn
+            try:
+                cc = lb.get_cursor_coords(size)
+            except Exception as e:  # noqa: BLE001
+                if core.raised_in_harness(e):
+                    raise
+                self.violate("C07.1", f"get_cursor_coords-raised:{core.exc_signature(e)}", f"{ctx}: {core.format_exc(e)}")
+                return None
+            if (tuple(cc) if cc is not None else None) != (tuple(canv.cursor) if canv.cursor is not None else None):
+                self.violate("C07.3", "get_cursor_coords-differs-from-the-cursor-drawn", f"{ctx}: get_cursor_coords {cc!r}, canvas cursor {canv.cursor!r}")
+                return None
+            res.probe("cursor_report_checked")
         elif canv.cursor is not None:
             self.violate("C07.3", "canvas-has-a-cursor-the-focus-item-does-not", f"{ctx}: canvas cursor {canv.cursor}")
             return None
@@ -850,6 +867,7 @@ class ListBoxEngine(Engine):
         "empty_walker_rendered",
         "click_focused_item",
         "cursor_checked",
+        "cursor_report_checked",
         "zero_row_item_in_list",
         "trailing_blank_rows",
         "window_strictly_inside_list",
@@ -905,7 +923,7 @@ class ListBoxEngine(Engine):
         if cfg["walker"] == "custom":
             cfg["positions"] = rng.random() < 0.85
         ops = [{"op": "render", "focus": True}] if rng.random() < 0.7 else []
-        tagc = iter("ABCDEFGHIJKLMNOPQRSTUVWXYZabcdefghij")
+        tagc = iter([*"ABCDEFGHIJKLMNOPQRSTUVWXYZabcdefghij", *(c + c for c in "ABCDEFGHIJKLMNOPQRSTUVWXYZabcdefghijklmnopqrstuvwxyz")])
         for _ in range(rng.randint(1, 30)):
             q = rng.random()
             if q < 0.34:
@@ -942,6 +960,11 @@ class ListBoxEngine(Engine):
                 if m == "slice_delete":
                     op["len"] = rng.randint(0, 3)
                 ops.append(op)
+                if m in ("clear", "list_clear", "slice_delete") and rng.random() < 0.6:
+                    # emptied and refilled in place (a reloaded list): whatever the list remembers of the old focus must fit the new contents
+                    ops.append({"op": "walker", "m": rng.choice(["iadd", "extend", "slice_assign", "insert"]), "i": 0, "len": 0, "items": [self.gen_item(rng, next(tagc)) for _ in range(rng.randint(1, 3))]})
+                    if ops[-1]["m"] == "insert":
+                        ops[-1]["item"] = ops[-1].pop("items")[0]
             elif q < 0.80:
                 ops.append({"op": "resize", "size": [rng.randint(1, 30) if rng.random() < 0.5 else rng.choice(COLS), rng.randint(1, 12)]})
             else:
